@@ -41,6 +41,7 @@ type Proc struct {
 	cbParams      map[string]*types.Var
 	err           error
 	probes        []*Obligation
+	callProbes    []*Obligation
 	pureDepth     int
 	heapReads     int
 	forceMerge    bool
@@ -496,6 +497,16 @@ func (p *Proc) evalSpecCall(ec *ectx, name string, call *ast.CallExpr) (Val, boo
 	}
 	if !ec.spec {
 		return Val{}, false
+	}
+	if ec.atCallSite {
+		switch name {
+		case "callcount", "handed", "invoked", "spawncount", "sendcount":
+			return Val{T: p.freshConst("callee_"+name, SInt), Typ: types.Typ[types.Int]}, true
+		case "spawned":
+			return Val{T: p.freshConst("callee_"+name, SInt), Typ: types.Typ[types.Int]}, true
+		case "lastsent":
+			return Val{T: p.freshConst("callee_"+name, SIface), Typ: types.NewInterfaceType(nil, nil)}, true
+		}
 	}
 	if d, ok := p.ctx.dirs.Defines[name]; ok {
 		return p.evalDefine(ec, d, call), true
